@@ -233,13 +233,33 @@ class Session:
         ts.create_type(o["name"], **kw)
         return None
 
+    @staticmethod
+    def _type_form(ts, name, salt):
+        """The API takes a type as `Type` object, qualified name or (where unambiguous) short name: which form a scenario uses is
+        derived from the op itself (reproducible), the meaning is the same by contract."""
+        import zlib
+        if name is None:
+            return None
+        k = zlib.crc32(("%s/%s" % (salt, name)).encode()) % 4
+        try:
+            if k == 1:
+                return ts.get_type(name)
+            if k == 2 and name.startswith("uima.cas."):
+                short = name.rsplit(".", 1)[1]
+                if ts.get_type(short).name == name:
+                    return short
+        except Exception:
+            pass
+        return name
+
     def op_ts_create_feature(self, o):
         ts = self.tss[o["ts"]]
+        salt = "%s.%s" % (o["domain"], o["name"])
         ts.create_feature(
             o["domain"],
             o["name"],
-            o["range"],
-            elementType=o.get("elem"),
+            self._type_form(ts, o["range"], salt + "/r"),
+            elementType=self._type_form(ts, o.get("elem"), salt + "/e"),
             description=o.get("descr"),
             multipleReferencesAllowed=o.get("multi"),
         )
